@@ -34,13 +34,32 @@ func equivalent(a, b *Dyn, heapOrderFree bool) string {
 // a fresh container and serialised again.
 var hugeRoundTripKinds = []string{"TreeSet", "TreeMap", "TreeBidiMap", "RedBlackTree", "AVLTree", "BTree", "LinkedHashMap", "LinkedHashSet", "ArrayList", "DoublyLinkedList", "SinglyLinkedList", "HashMap", "HashSet"}
 
+// Sized round trips: every container at exactly the sizes where block-wise
+// encoders, chunked copies and growth policies have their seams (powers of two
+// and their multiples, one below, one above).
+var roundTripSizes = []int{63, 64, 65, 127, 128, 255, 256, 257, 511, 512, 513, 1023, 1024, 1025, 1536, 2048, 2560, 4096, 4097, 8192}
+
+func sizedRoundTripCases() int { return len(dynKinds) * len(roundTripSizes) }
+
 func runHugeRoundTrip(c *core.Ctx, j int) {
 	kind := hugeRoundTripKinds[j]
 	n := 220000
 	if c.Tier == "thorough" {
 		n = 1000000
 	}
-	cfg := dynCfg{cmp: 0, vcmp: 0, order: []int{3, 4, 64}[j%3], cap: 8}
+	roundTripOf(c, kind, n, j)
+	c.Count("obs:huge-round-trips", 1)
+}
+
+func runSizedRoundTrip(c *core.Ctx, j int) {
+	kind := dynKinds[j%len(dynKinds)]
+	n := roundTripSizes[j/len(dynKinds)]
+	roundTripOf(c, kind, n, j)
+	c.Count("obs:sized-round-trips", 1)
+}
+
+func roundTripOf(c *core.Ctx, kind string, n int, j int) {
+	cfg := dynCfg{cmp: 0, vcmp: 0, order: []int{3, 4, 64}[j%3], cap: n}
 	d := NewDyn(kind, IntDom(8), IntDom(8), cfg)
 	c.Begin(kind, "build", n, "falling")
 	vs := make([]any, 0, n)
@@ -84,7 +103,6 @@ func runHugeRoundTrip(c *core.Ctx, j int) {
 			}
 		}
 	}
-	c.Count("obs:huge-round-trips", 1)
 	c.Nontrivial()
 }
 
@@ -162,16 +180,20 @@ func runC11Floats(c *core.Ctx, sel int) {
 }
 
 func runC11(c *core.Ctx) {
-	if c.Index%43 == 11 && c.Index >= len(hugeRoundTripKinds) {
-		runC11Floats(c, c.Index/43)
-		return
-	}
 	if c.Index < len(hugeRoundTripKinds) {
 		runHugeRoundTrip(c, c.Index)
 		return
 	}
+	if j := c.Index - len(hugeRoundTripKinds); j >= 0 && j < sizedRoundTripCases() {
+		runSizedRoundTrip(c, j)
+		return
+	}
 	if c.Index%41 == 7 {
 		runC11Nested(c, c.Index/41)
+		return
+	}
+	if c.Index%43 == 11 {
+		runC11Floats(c, c.Index/43)
 		return
 	}
 	r := c.R
@@ -332,6 +354,7 @@ func init() {
 		Title: "JSON serialization round-trips every container state",
 		Cases: func(tier string) int { return tierN(tier, 42000, 2520000) },
 		Run:   runC11,
+		ParSkip: func(string) int { return len(hugeRoundTripKinds) + sizedRoundTripCases() + 8 },
 		Rule: "one container per case, cycling through all 21 kinds (int/string elements, four key/value type pairs incl. values whose text equals keys, all comparators, ring capacities 1..64, B-tree orders) in a state that is never-used, used-then-cleared or reached by a random history (wrapped, partially filled and full rings); " +
 			"ToJSON must succeed, be valid JSON of the right shape and equal json.Marshal (byte for byte; up to element order for hash containers) without altering the container; its output is loaded by FromJSON, json.Unmarshal and UnmarshalJSON into three fresh containers of the same configuration, " +
 			"each of which must be equivalent to the original in every observer and iteration order, then drained in lockstep with it (stacks, queues, heaps) or continued with identical calls (others). Every case is non-trivial; distinct = distinct hash of the call list and the serialized state.",
@@ -343,6 +366,7 @@ func init() {
 			f.atLeast("obs:serialisation-after-float-case", 500)
 			f.atLeast("obs:nested-tojson", 1000)
 			f.atLeast("obs:huge-round-trips", int64(len(hugeRoundTripKinds)))
+			f.atLeast("obs:sized-round-trips", int64(sizedRoundTripCases()))
 			f.atLeast("obs:lockstep-drain", 2000)
 			f.atLeast("state:never-used", 500)
 			f.atLeast("state:used-then-cleared", 500)
